@@ -616,13 +616,30 @@ def main(ctx):
                       ', '.join(bad), found_input=impl_bad > 0,
                       signature={'kind': 'proof-broken', 'file': 'Props.v'})
     if tie_ok and proof_ok and (lib.COQ / 'C01' / 'PropsCfg.v').exists() and not cfg_ok:
-        ctx.violation('proof-broken',
-                      {'ignore_pattern': tables.get('ignore_src'), 'translated': tables.get('ignore_pats')},
-                      'bang_ok ignore_pats = true (the reader ignores `!!` comment lines)',
-                      'false: a `!!` line opens a new block and the rows after it are lost',
-                      'C01_bang_comments_ignored', found_input=True,
-                      signature={'oracle': 'format', 'variant': 'bang-inside', 'kind': 'cfg'},
-                      what='per-run obligation on the translated ignore pattern fails')
+        reported = False
+        if not any(p in tables.get('ignore_pats', []) for p in ('IBang', 'IBangWs', 'IBangAny')):
+            reported = True
+            ctx.violation('proof-broken',
+                          {'ignore_pattern': tables.get('ignore_src'), 'translated': tables.get('ignore_pats')},
+                          'bang_ok ignore_pats = true (the reader ignores `!!` comment lines)',
+                          'false: a `!!` line opens a new block and the rows after it are lost',
+                          'C01_bang_comments_ignored', found_input=True,
+                          signature={'oracle': 'format', 'variant': 'bang-inside', 'kind': 'cfg'},
+                          what='per-run obligation on the translated ignore pattern fails')
+        if not tables.get('rebind_by_id'):
+            reported = True
+            ctx.violation('proof-broken', {'rebind_by_id': False},
+                          'remove_useless_nodes re-attaches nodal data by node id',
+                          'by storage position: values land on other node ids',
+                          'C01_rebind_by_id', found_input=True,
+                          signature={'oracle': 'roundtrip', 'component': 'initial_temperature',
+                                     'unreferenced_nodes': True, 'temperature_order': 'permuted',
+                                     'kind': 'cfg'},
+                          what='per-run obligation on remove_useless_nodes fails')
+        if not reported:
+            ctx.violation('proof-broken', {'log': ctx.notes.get('cfg_build_log_tail', '')[-600:]},
+                          'PropsCfg.v checks', 'does not check', 'PropsCfg.v', found_input=False,
+                          signature={'kind': 'proof-broken', 'file': 'PropsCfg.v'})
     return ctx.finish()
 
 
